@@ -83,7 +83,7 @@ def run(chk, repo, tier):
     chk.rule('C12.R6', 'split_mps_tensor for all three singular-value distributions: leg layout, total exponent 1, charge '
                        'orientation, merge undoes split')
     fi, ba, items = run_block(chk, repo, 'C12', 'bond_ops.split_matrix_svd', 'svd')
-    bounds_rule(chk, repo, 'C12.R2', fi)
+    bounds_rule(chk, repo, 'C12.R2', fi, getattr(ba, 'Dname', 'D'))
     c = ba.counts
     if (c['cond_perm'] < 2 or c['unperm'] < 2 or c['block_store'] < 4 or c['dummy'] < 1) and all(i[2] for i in items):
         raise AnalysisError(f'split_matrix_svd: anchored idioms vanished (counts {c})')
